@@ -419,14 +419,17 @@ namespace rvutils::pbo
             const size_t buff_size = 256;
             char buff[buff_size];
             auto start_pos = file.tellg();
-            file.seekg(0, std::ios::end);;
-            auto eof = file.tellg();
-            file.seekg(start_pos);
+            if (start_pos < 0)
+            {
+                return -1;
+            }
             int runs = 0;
-            do
+            while (true)
             {
                 file.read(buff, buff_size);
-                for (size_t i = 0; i < buff_size; i++)
+                // only the bytes actually read belong to the file
+                auto got = static_cast<size_t>(file.gcount());
+                for (size_t i = 0; i < got; i++)
                 {
                     if (buff[i] == '\0')
                     {
@@ -436,7 +439,12 @@ namespace rvutils::pbo
                     }
                 }
                 runs++;
-            } while (file.tellg() < eof && !file.eof());
+                if (got < buff_size)
+                {
+                    break;
+                }
+            }
+            file.clear();
             file.seekg(start_pos);
             return -1;
         }
@@ -530,6 +538,12 @@ namespace rvutils::pbo
 
             // read in the whole data available into helper struct
             file.read(reinterpret_cast<char*>(&data_mapped), sizeof(header::bin));
+            if (static_cast<size_t>(file.gcount()) != sizeof(header::bin))
+            { // truncated record
+                file.clear();
+                file.seekg(start_pos);
+                return {};
+            }
             file.clear();
 
 
@@ -1167,12 +1181,15 @@ namespace rvutils::pbo
         void open(const std::filesystem::path &path)
         {
             std::fstream file(path, std::ios_base::binary | std::ios_base::in | std::ios_base::out);
-            if (!file.is_open() && !file.good())
+            if (!file.is_open() || !file.good())
             {
                 m_good = false;
                 return;
             }
             m_path = path;
+            file.seekg(0, std::ios::end);
+            auto file_end = file.tellg();
+            file.seekg(0, std::ios::beg);
 #if _DEBUG
             auto DBG_POS = file.tellg();
 #endif
@@ -1219,6 +1236,12 @@ namespace rvutils::pbo
             {
                 m_headers.push_back(*opt_header);
             }
+            if (!opt_header.has_value())
+            { // header table is not terminated
+                m_headers.clear();
+                m_good = false;
+                return;
+            }
             m_headers.push_back(*opt_header);
 #if _DEBUG
             DBG_POS = file.tellg();
@@ -1232,6 +1255,12 @@ namespace rvutils::pbo
                 it.block_data.start = offset;
                 offset += it.size;
                 it.block_data.end = offset;
+                if (offset > file_end)
+                { // the sizes stated do not fit the file
+                    m_headers.clear();
+                    m_good = false;
+                    return;
+                }
             }
 
             // All fine here, end processing.
